@@ -84,6 +84,35 @@ pub mod timer {
         }
     }
 
+    /// No-op in simulation (timers fire on the virtual clock).
+    pub fn start_timer_thread() {}
+
+    /// Returns after the given instant, measured on the virtual clock relative to "now".
+    pub async fn sleep_until(deadline: std::time::Instant) {
+        sleep_for(deadline.saturating_duration_since(std::time::Instant::now())).await;
+    }
+
+    /// Awaits `fut`, or gives up after `duration` of VIRTUAL time.
+    pub async fn with_timeout<Fut: Future>(fut: Fut, duration: Duration) -> Result<Fut::Output, DeadlineExceededError> {
+        let mut fut = Box::pin(fut);
+        let mut sleep = Box::pin(sleep_for(duration));
+        std::future::poll_fn(move |cx| {
+            if let Poll::Ready(v) = fut.as_mut().poll(cx) {
+                return Poll::Ready(Ok(v));
+            }
+            if let Poll::Ready(()) = sleep.as_mut().poll(cx) {
+                return Poll::Ready(Err(DeadlineExceededError));
+            }
+            Poll::Pending
+        })
+        .await
+    }
+
+    /// Awaits `fut`, or gives up at `deadline` (converted to a virtual-time span from now).
+    pub async fn with_deadline<Fut: Future>(fut: Fut, deadline: std::time::Instant) -> Result<Fut::Output, DeadlineExceededError> {
+        with_timeout(fut, deadline.saturating_duration_since(std::time::Instant::now())).await
+    }
+
     /// Returns `duration` of virtual time from now.
     pub async fn sleep_for(duration: Duration) {
         let now = sim_core::now_ns();
